@@ -339,6 +339,7 @@ def tlc_jobs(ctx, quick):
         "SidecarFresh": lambda: run_tlc("CacheCoherence", "CacheCoherence_asbuilt_sidecar.cfg", workers=1, timeout=1500, tag="C19-sc"),
         "gen": lambda: run_tlc("CacheCoherence", "CacheCoherence_gen_quick.cfg" if quick else "CacheCoherence_gen_thorough.cfg", workers=4 if quick else 8,
                                timeout=3000, tag="C19-gen"),
+        "mid": lambda: run_tlc("CacheCoherence", "CacheCoherence_gen_mid.cfg", workers=4, timeout=3000, tag="C19-mid"),
         "sim": lambda: run_tlc("CacheCoherence", "CacheCoherence_sim.cfg", workers=1, timeout=3000, simulate=100 if quick else 3000, depth=12,
                                seed=ctx.seed, tag="C19-sim"),
     }
@@ -361,7 +362,7 @@ def model_results(ctx, res, quick):
         if zero:
             raise vlib.ToolError(f"TLC coverage: actions never taken: {zero}")
         tlc_must_pass(res["deep"], "CacheCoherence ideal keys, deep")
-        ctx.tlc_stats(res["deep"], "CacheCoherence, ideal keys, one path, 9 steps")
+        ctx.tlc_stats(res["deep"], "CacheCoherence, ideal keys, one path, 8 steps")
     # as-built keys: both refutations must be found
     model = {}
     for inv in ("FooterFresh", "SidecarFresh"):
@@ -381,7 +382,10 @@ def model_results(ctx, res, quick):
             ctx.tlc_stats(r, f"CacheCoherence, mutant key model {km}: refuted")
     r = res["gen"]
     tlc_must_pass(r, "CacheCoherence generator")
-    ctx.tlc_stats(r, "CacheCoherence, as-built keys: every history in the bound emitted with the predicted stale flags per query")
+    ctx.tlc_stats(r, "CacheCoherence, as-built keys: every history of 3 (quick) / 5 (thorough) steps emitted with the predicted stale flags per query")
+    mid = res["mid"]
+    tlc_must_pass(mid, "CacheCoherence generator, 4 steps")
+    ctx.tlc_stats(mid, "CacheCoherence, as-built keys: every history of 4 steps emitted with the predicted stale flags per query")
     sim = res["sim"]
     if sim.error or sim.violated:
         tlc_must_pass(sim, "CacheCoherence/simulate")
@@ -389,20 +393,24 @@ def model_results(ctx, res, quick):
     sim.generated = int(m.group(1)) if m else 0
     sim.distinct = len({hist_key(c) for c in sim.cases})
     ctx.tlc_stats(sim, "CacheCoherence -simulate: random histories of 8 steps over 2 paths (as-built keys), one CASE per walk")
-    return r.cases, sim.cases
+    return r.cases, mid.cases, sim.cases
 
 
 # --------------------------------------------------------------------------------------------
 
 def run(ctx):
     quick = ctx.tier == "quick"
-    gen, simc = model_results(ctx, tlc_jobs(ctx, quick), quick)
+    gen, midc, simc = model_results(ctx, tlc_jobs(ctx, quick), quick)
     stats = new_stats()
     ex = prepare(gen)
+    # the 4-step family: all of it in thorough, a seeded quarter in quick
+    mids = [c for c in prepare(midc) if not quick or (int(c["key"], 16) + ctx.seed) % 4 == 0]
+    ex = ex + mids
     seen = {c["key"] for c in ex}
     sm = [c for c in prepare(simc) if c["key"] not in seen]
-    if len(ex) < 1000 or len(sm) < 40:
+    if len(ex) < (900 if quick else 20000) or len(sm) < 40:
         raise vlib.ToolError(f"too few histories emitted ({len(ex)} exhaustive, {len(sm)} simulated)")
+    ctx.set("cases_4_step_family", len(mids))
     # all four concretisation variants (rename / in place x fresh / long-lived context) for the histories with a finding shape
     # or, in thorough, for everything of the exhaustive family
     allc = ex + sm
@@ -417,7 +425,13 @@ def run(ctx):
                 continue
             others = [3 - var0]
         else:
-            others = [v for v in range(4) if v != var0] if flagged or int(c["key"], 16) % 4 == 0 else [3 - var0]
+            h = int(c["key"], 16)
+            if flagged:
+                others = [v for v in range(4) if v != var0] if h % 3 == 0 else [3 - var0]
+            elif h % 4 == 0:
+                others = [3 - var0]
+            else:
+                continue
         for var in others:
             d = dict(c)
             d["repl"], d["shared_ctx"] = var % 2, var // 2
@@ -441,8 +455,8 @@ def run(ctx):
     ctx.set("rule", "A case is one history of CacheCoherence.tla: a QE_IPC_CACHE mode (0 / 1 / unset) and a sequence of steps over 1-2 paths - "
             "Write (other content, same or other byte length, mtime later / same second other nanosecond / preserved), Query (4 statements: morsel "
             "aggregate, streaming scan, eager filtered scan, dictionary-group scan), XQuery (same in a fresh process), Build (another process builds "
-            "the sidecar) - ending in a query. The exhaustive family is every history of exactly 4 (quick) / 5 (thorough) steps on one path; simulation "
-            "adds 8-step histories over two paths. Each history runs on real files in one engine process per mode; content versions differ in rows, "
+            "the sidecar) - ending in a query. The exhaustive family is every history of exactly 3 steps (quick; plus a seeded quarter of the 4-step ones) / "
+            "4 and 5 steps (thorough) on one path; simulation adds 8-step histories over two paths. Each history runs on real files in one engine process per mode; content versions differ in rows, "
             "row-group layout and dictionary encoding and have byte-identical lengths per length class. Non-trivial = distinct history in which a path is "
             "replaced after a query/build touched it and is queried again.")
     ctx.assumptions += [
@@ -474,7 +488,7 @@ def selftest(ctx):
         print(f"selftest {name}: {'detected' if cond else 'NOT DETECTED'} {detail}")
         ok = ok and cond
 
-    res = run_tlc("CacheCoherence", "CacheCoherence_gen_quick.cfg", workers=8, timeout=1500)
+    res = run_tlc("CacheCoherence", "CacheCoherence_gen_mid.cfg", workers=8, timeout=1500)
     tlc_must_pass(res, "generator")
     cases = prepare(res.cases)
     by_key = {c["key"]: c for c in cases}
